@@ -9,6 +9,11 @@ CONSTANTS
   Uris = {"u1"}
   Want <- WantAll
   CapOff = {}
+  CapMode <- ModeInferred
+  InitSize <- Size3
+  MaxSize = 3
+  Dirs = {"mod"}
+  SendGate = "configured"
   TTLPos = TRUE
   D = 2
   MaxTime = 14
@@ -19,6 +24,7 @@ CONSTANTS
   ListenOwns = TRUE
   ResubRace = TRUE
   GenCheck = TRUE
+  ColdBump = TRUE
   ModernUnsub = TRUE
   ForeignUnsub = TRUE
   Listeners = {}
@@ -31,6 +37,7 @@ CONSTANTS
   MinSteps = 10
   MaxSteps = 22
   Bias = TRUE
-  GenOps = {"change", "tchange", "updated", "connect", "close", "subscribe", "unsubscribe", "list", "tick", "hold", "release"}
+  Script <- ScriptNone
+  GenOps = {"change", "tchange", "updated", "connect", "close", "subscribe", "unsubscribe", "list", "expire", "tick", "hold", "release"}
 INVARIANTS Export
 CHECK_DEADLOCK FALSE
